@@ -40,6 +40,25 @@ for i, z in enumerate(zones):
     a = Alarm(); a.TRIGGER = timedelta(minutes=-5); e.add_component(a); cal.add_component(e)
 cal.add_missing_timezones(first_date=date(2020, 1, 1), last_date=date(2022, 1, 1))
 b = cal.to_ical() + cal.to_ical(sorted=False)
+# every component kind, holding every name any canonical order mentions: the first and the second serialisation
+# of this (fresh) process must be the same bytes, whatever the hash seed
+from icalendar import Journal, FreeBusy, Timezone, TimezoneStandard, TimezoneDaylight, Component
+from icalendar.cal import component_factory
+from icalendar.prop import vText
+names = set(['UID', 'DTSTAMP', 'DTSTART', 'DTEND', 'DUE', 'DURATION', 'SUMMARY', 'DESCRIPTION', 'TZID', 'TZNAME', 'TZOFFSETFROM',
+             'TZOFFSETTO', 'RRULE', 'RDATE', 'EXDATE', 'FREEBUSY', 'ORGANIZER', 'ATTENDEE', 'COMMENT', 'X-A', 'X-B', 'ACTION', 'TRIGGER',
+             'VERSION', 'PRODID', 'CALSCALE', 'METHOD', 'LOCATION', 'PRIORITY', 'SEQUENCE', 'STATUS', 'URL', 'CLASS', 'CREATED'])
+names |= set(['RECURRENCE-ID', 'LAST-MODIFIED', 'CATEGORIES', 'TRANSP', 'GEO', 'RESOURCES', 'CONTACT', 'RELATED-TO', 'ATTACH',
+              'REPEAT', 'PERCENT-COMPLETE', 'COMPLETED', 'TZURL', 'X-LIC-LOCATION', 'REQUEST-STATUS', 'EXRULE'])
+# (the classes' own canonical_order attributes are deliberately not read here: looking must not disturb them)
+for cls in sorted(set(list(component_factory.values()) + [Component]), key=lambda k: k.__name__):
+    c = cls()
+    for n in sorted(names, reverse=True):
+        c[n] = vText('v-' + n.lower())
+    one, two = c.to_ical(), c.to_ical()
+    if one != two:
+        sys.stdout.write('NOT-IDEMPOTENT %s: first %r then %r\n' % (cls.__name__, one, two))
+    b += one + c.to_ical(sorted=False)
 sys.stdout.write(hashlib.sha256(b).hexdigest() + ' ' + ','.join(sorted(cal.get_used_tzids())) + ' ' + ','.join(t.tz_name for t in cal.timezones))
 '''
 
@@ -71,9 +90,9 @@ def balanced(b):
     return not stack
 
 
-def build_event(spec, order):
-    from icalendar import Event
-    e = Event()
+def build_event(spec, order, kind='Event'):
+    import icalendar
+    e = getattr(icalendar, kind)()
     for i in order:
         name, value, params = spec[i]
         e.add(name, value, parameters=dict(params) if params else None)
@@ -132,7 +151,8 @@ def check_permutations(ctx, rng):
     spec = rng.sample(pool, k)
     if rng.random() < 0.4:
         spec = rng.sample(pool[-8:], min(k, 4)) + rng.sample(pool[:-8], max(0, k - 4))
-    base = build_event(spec, range(k)).to_ical()
+    kind = rng.choice(['Event', 'Event', 'Todo', 'Journal', 'FreeBusy', 'Alarm', 'Timezone', 'TimezoneStandard', 'Calendar'])
+    base = build_event(spec, range(k), kind).to_ical()
     names = [s[0] for s in spec]
     perms = list(itertools.permutations(range(k))) if k <= 5 else [rng.sample(range(k), k) for _ in range(60)]
     for p in perms:
@@ -140,12 +160,12 @@ def check_permutations(ctx, rng):
         ok = all(p.index(i) < p.index(j) for i in range(k) for j in range(i + 1, k) if names[i] == names[j])
         if not ok:
             continue
-        ctx.evaluated(('perm', tuple(names), tuple(p)))
+        ctx.evaluated(('perm', kind, tuple(names), tuple(p)))
         # permute parameter insertion order too
         spec2 = [(n, v, dict(reversed(list(pr.items()))) if pr else None) for n, v, pr in spec]
-        b = build_event(spec2, p).to_ical()
+        b = build_event(spec2, p, kind).to_ical()
         if b != base:
-            ctx.violation('insertion-order', {'names': names, 'perm': list(p)},
+            ctx.violation('insertion-order', {'names': names, 'perm': list(p), 'component': kind},
                           f'bytes differ for insertion order {p}: {b!r} vs {base!r}')
             return
 
@@ -163,6 +183,10 @@ def check_hashseed(ctx):
             ctx.violation('hashseed-script-failed', {'seed': s}, p.stderr[-400:])
             return
         outs[s] = p.stdout.strip()
+        for ln in p.stdout.splitlines():
+            if ln.startswith('NOT-IDEMPOTENT'):
+                ctx.violation('not-idempotent', {'hashseed': s, 'component': ln.split(':')[0].split()[1]}, ln[:1500])
+                return
     if len(set(outs.values())) != 1:
         ctx.violation('hash-seed-dependent', {'outputs': outs}, 'the same script produced different bytes under different PYTHONHASHSEED')
     ctx.count('hashseed_runs', len(seeds))
